@@ -29,7 +29,7 @@ try:
 finally:
     sh('git -C /repo checkout -- .')
     sh('git -C /verif checkout -- coq/Gen')      # files regenerated from the mutated source must not survive
-dst = '/verif/seeded/%s-%s' % (prop, k)
+dst = '/verif/seeded/%s-%d' % (prop, int(k) + int(os.environ.get('SEED_OFFSET', '0')))
 os.makedirs(dst, exist_ok=True)
 shutil.copy(os.path.join(src, 'patch.diff'), dst); shutil.copy(os.path.join(src, 'demo.py'), dst)
 meta = json.load(open(os.path.join(src, 'meta.json')))
